@@ -256,9 +256,17 @@ fn trunc_case(out: &mut Out, stamps: &[Vec<u64>], t: u64, with_active: bool) {
 }
 
 fn trunc_case_sized(out: &mut Out, stamps: &[Vec<u64>], sizes: &[Vec<usize>], t: u64, with_active: bool) {
+    trunc_case_fault(out, stamps, sizes, t, with_active, None)
+}
+
+/// `fault`: (file, mode) - while the truncation examines the files, that file cannot be read (a transient I/O
+/// error: open fails, the read fails, or the file seems gone); afterwards it is readable again.  The rule is
+/// the same: nothing stamped later than T disappears, the active file stays.
+fn trunc_case_fault(out: &mut Out, stamps: &[Vec<u64>], sizes: &[Vec<usize>], t: u64, with_active: bool, fault: Option<(usize, u8)>) {
     let nold = if with_active { stamps.len() - 1 } else { stamps.len() };
     let img = build(&sizes[..nold], &stamps[..nold]);
-    let st = img.store.clone();
+    let healthy = img.store.clone();
+    let st = UnreadableStore { inner: img.store.clone(), bad: fault.map(|(f, _)| name(f as u64)).unwrap_or_default(), mode: fault.map(|(_, m)| m).unwrap_or(0) };
     let stamps2 = stamps.to_vec();
     let r = catch(move || {
         let mut rot = WalRotator::new(st.clone(), 1 << 30).unwrap();
@@ -268,17 +276,17 @@ fn trunc_case_sized(out: &mut Out, stamps: &[Vec<u64>], sizes: &[Vec<usize>], t:
             }
             rot.sync().unwrap();
         }
-        let deleted = rot.truncate_before(t).unwrap();
-        let remaining: Vec<u64> = st
+        let deleted = rot.truncate_before(t).map(|d| d as i64).unwrap_or(-1);
+        let remaining: Vec<u64> = healthy
             .list()
             .unwrap()
             .iter()
             .filter_map(|n| n.strip_prefix("wal-").and_then(|s| s.strip_suffix(".wal")).and_then(|s| u64::from_str_radix(s, 16).ok()))
             .collect();
-        let after: Vec<u64> = rot.recover_all_entries().unwrap().iter().map(|e| e.timestamp).collect();
+        let after: Vec<u64> = WalRotator::new(healthy.clone(), 1 << 30).unwrap().recover_all_entries().unwrap().iter().map(|e| e.timestamp).collect();
         (deleted, remaining, after)
     });
-    let mut rec = json!({"t": "trunc", "run": out.n + 1, "stamps": stamps, "T": t,
+    let mut rec = json!({"t": "trunc", "run": out.n + 1, "stamps": stamps, "T": t, "fault": fault.map(|(f, m)| json!([f, m])),
                          "active": if with_active { stamps.len() } else { 0 }});
     match r {
         Ok((deleted, remaining, after)) => {
@@ -366,6 +374,14 @@ pub fn main(a: &Args) -> i32 {
             for t in 0..=4u64 {
                 trunc_case(&mut out, &[f1.clone(), f2.clone()], t, true);
                 trunc_case(&mut out, &[f1.clone(), f2.clone()], t, false);
+                // one of the files cannot be read while the truncation looks at it
+                if thorough || t == 0 || (f1.len() + f2.len() + t as usize) % 3 == 0 {
+                    let sz: Vec<Vec<usize>> = [f1, f2].iter().map(|f| f.iter().map(|_| 3).collect()).collect();
+                    for mode in 0..3u8 {
+                        trunc_case_fault(&mut out, &[f1.clone(), f2.clone()], &sz, t, true, Some((1, mode)));
+                        trunc_case_fault(&mut out, &[f1.clone(), f2.clone()], &sz, t, false, Some((1 + (t as usize % 2), mode)));
+                    }
+                }
                 if thorough || (f1.len() == 1 && f2.len() == 1) {
                     for f3 in &file_opts {
                         if thorough || f3.len() == 1 {
